@@ -110,6 +110,35 @@ class Ctx:
             pass
         return [p[1:] for p in r.prints if p[1] != "DONE"]
 
+    def trace_batches(self, module, cfg, rows, label=None, chunk=500, jobs=12, timeout=1800, group=None):
+        """Validate independent cases in parallel TLC processes (each -workers 1).
+        group: optional function row -> key; rows of one group stay in one chunk, in order."""
+        import concurrent.futures
+
+        chunks = []
+        if group is None:
+            chunks = [rows[i : i + chunk] for i in range(0, len(rows), chunk)]
+        else:
+            cur, cur_keys = [], None
+            last = object()
+            for r in rows:
+                k = group(r)
+                if k != last and len(cur) >= chunk:
+                    chunks.append(cur)
+                    cur = []
+                cur.append(r)
+                last = k
+            if cur:
+                chunks.append(cur)
+        if not chunks:
+            return []
+        out = []
+        with concurrent.futures.ThreadPoolExecutor(max_workers=jobs) as ex:
+            futs = [ex.submit(self.trace_batch, module, cfg, ch, f"{label or 'b'}{i}", timeout) for i, ch in enumerate(chunks)]
+            for f in futs:
+                out += f.result()
+        return out
+
     # ---------------------------------------------------------------- accounting
     def count(self, n=1, key=None, nontrivial=True):
         self.evaluations += n
